@@ -7,6 +7,20 @@ import re
 
 HERE = os.path.dirname(os.path.dirname(os.path.abspath(__file__)))
 REMARKS = {
+ 'C17_n2': 'NOT CAUGHT, deliberately: same as C17_m1 (the callback resizes the array being visited; undocumented)',
+ 'C19_n2': 'NOT CAUGHT, deliberately: needs a caller that passes an unsigned length >= 2^31 through the printbuf_memappend_fast MACRO (2 GiB of source bytes); the function form and every int-typed length behave as before',
+ 'C05_n1': 'NOT CAUGHT, deliberately: needs json_object_set_userdata() on a text-retaining double, which leaves that node\'s serializer pointing at userdata that is not its text any more (the next serialization or deep copy of such a node reads the caller\'s pointer as a string) -- not a state the ownership property speaks about',
+ 'C19_n1': 'first run: harness build collision; then caught once the buffer could be formatted into itself (fmts: sprintbuf(pb, "%s|%s", pb->buf, pb->buf), 14k times per run, 10k on the long path)',
+ 'C17_n1': 'first runs: harness build collisions; caught after the invalid codes got the 0x20000 offsets as well (every k*65536 for k in 1,2,3,4,-1,-2,256,0x7FFF and single high bits)',
+ 'C13_n2': 'first run: MISSED (SCRAMBLE gave every scalar the same new value, so a node sitting at two places of the result looked fine); every scalar now gets a running number and the result is compared with the model',
+ 'C20_n2': 'first run: MISSED (only regular files and memfds); json_object_from_file on a FIFO whose writer opens late and writes in two pieces (reported as a hang: the reader gave up, the writer blocks)',
+ 'C06_n2': 'first run: MISSED (the object\'s table was never resized by hand); a fifth of the churn histories call lh_table_resize on it with a size that is not a power of two',
+ 'C11_n1': 'first run: MISSED (the new bytes never came from the node itself); SSELF: set_string_len(o, get_string(o), n) for n in 0,1,len/2,len-1,len (24k times per run)',
+ 'C11_n2': 'caught by C05 and C11 after the delete callback of the driver started reading the node it is handed (string bytes, first children, scalar value)',
+ 'C05_n2': 'first run: MISSED (patch values were always 777); a third of the replaced string/boolean leaves now get an equal value',
+ 'C07_n2': 'first run: MISSED (the comparator returned -1/0/1); it now returns a scaled difference like most hand-written comparators',
+ 'C15_n1': 'caught only because limits of 10001..12000 had just been added (same round)',
+ 'C12_n2': 'caught only because the whole-document set on a NULL document had just been added (same round)',
  'C17_m1': 'NOT CAUGHT, deliberately: the change only shows when the callback appends to / shrinks the very array being visited; the visitor documents no behaviour under mutation from the callback (C06 asserts deletion of the current object member, which the property names), so there is nothing to assert',
  'C20_m1': 'NOT CAUGHT, deliberately: retrying a write that failed with EINTR and delivering every byte exactly once is accepted by the recorded assumption ("retry-and-complete or clean failure"); the inconsistency (only after a partial write) changes no observable byte',
  'C10_m2': 'first run: build collision in the seedtest run (exit 2); caught on re-run (set_int on a node in unsigned representation)',
